@@ -418,5 +418,10 @@ def expression(r):
         pre = r.choice(list(SPOKEN))
         hf = SPOKEN_HOUR_FORMS[r.choice(list(SPOKEN_HOUR_FORMS))]
         return "spoken", "%s %s" % (pre, hf(h))
+    if kind == "podclock" and r.random() < 0.35:
+        # a part of day in front of a clock range (every hour, incl. 12 and 0)
+        a, b = r.randrange(0, 24), r.randrange(0, 24)
+        hf = RANGE_HOUR_FORMS[r.choice(["H:MM", "H Uhr", "ham"])]
+        return "podrange", "%s %s" % (r.choice(POD_PM + POD_AM + POD_PM_MOD), RANGE_JOIN[r.choice(["-", "to", "bis", "von-bis", "from-to"])].format(a=hf(a, 0), b=hf(b, 0)))
     hh = r.randrange(1, 12) if r.random() < 0.6 else r.randrange(0, 24)
     return "podclock", "%d:%02d %s" % (hh, mi, r.choice(POD_PM + POD_AM + POD_PM_MOD + POD_AM_MOD))
